@@ -122,6 +122,7 @@ def finish(M, rec, write=True):
         rec.gate(not missing, f"(lookup memoised before, mutating call) pairs never exercised: {missing[:5]}")
         rec.gate(rec.counters.get("invariant_evals", 0) > 0, "class invariant never evaluated with a memo present")
         rec.gate(rec.counters.get("monitor_internal_errors", 0) == 0, "monitor internal errors")
+    rec.extra["exhaustive_subspaces"] = [f"all histories of length <= {rec.extra.get('exhaustive_depth')} over the {rec.extra.get('alphabet_size')}-call alphabet, all lookups read after every call"]
     return rec.finish(
         ["lookup_reads", "memo_entries_checked", "twin_attribute_comparisons"],
         ["memo_x_op"],
